@@ -389,18 +389,26 @@ package mapping
 //@   opaque Deref, unmarshalWithFullName
 //@   requires u != nil
 //@   ensures [filled-from-the-valuer] calls(u.unmarshalWithFullName) == 1 && arg(u.unmarshalWithFullName, 1) == m && arg(u.unmarshalWithFullName, 3) == fullName && (ret(unmarshalWithFullName) != nil ==> result == ret(unmarshalWithFullName) && calls(Set) == 0) && (ret(unmarshalWithFullName) == nil ==> result == nil)
-// processFieldWithEnvValue: the environment value is checked against options= first; bool / duration / string are
-// parsed as such (a parse error is an error), everything else goes through the checked JSON-number path.
+// processFieldWithEnvValue: the environment value is checked against options= first; a pointer field is allocated
+// and filled through its element type (the fillers below never see a pointer type or a nil pointer); bool /
+// time.Duration / string are parsed as such (a parse error is an error) - a duration only into a field whose type
+// IS time.Duration, not into every int64 -, everything else goes through the checked JSON-number path.
 //@ func (*Unmarshaler).processFieldWithEnvValue
 //@   prop C05
-//@   opaque validateValueInOptions, options, fillDurationValue, processFieldPrimitiveWithJSONNumber, Errorf
+//@   opaque validateValueInOptions, options, fillDurationValue, processFieldPrimitiveWithJSONNumber, Errorf, maybeNewValue
 //@   requires u != nil
+//@   replay mapping_env
+//@   let ft = local(fieldType)
+//@   let kind = tkind(ft.tag, ft.val)
 //@   ensures [options-checked-first] calls(validateValueInOptions) == 1 && unbox(arg(validateValueInOptions, 0), string) == envVal && (ret(validateValueInOptions) != nil ==> result == ret(validateValueInOptions) && calls(SetBool) == 0 && calls(SetString) == 0 && calls(processFieldPrimitiveWithJSONNumber) == 0)
-//@   let k1 = ret(Kind, 0, 1)
-//@   let kd = ret(Kind, 0, 2)
-//@   ensures [bool-parsed] ret(validateValueInOptions) == nil && k1 == 1 ==> calls(strconv.ParseBool, envVal) == 1 && (ret(strconv.ParseBool, 1) != nil ==> result != nil && calls(SetBool) == 0) && (ret(strconv.ParseBool, 1) == nil ==> result == nil && calls(SetBool) == 1 && arg(SetBool, 1) == ret(strconv.ParseBool, 0))
-//@   ensures [string-verbatim] ret(validateValueInOptions) == nil && k1 == 24 && kd != 24 ==> calls(SetString) == 1 && arg(SetString, 1) == envVal && result == nil
-//@   ensures [numbers-through-the-checked-path] ret(validateValueInOptions) == nil && k1 != 1 && k1 != 24 && k1 != kd ==> calls(u.processFieldPrimitiveWithJSONNumber) == 1 && arg(processFieldPrimitiveWithJSONNumber, 3) == envVal && result == ret(processFieldPrimitiveWithJSONNumber)
+//@   loop 1 iteration-ensures [pointer-allocated-then-followed] calls(CanSet) == 1 && ret(CanSet) && calls(maybeNewValue) == 1 && arg(maybeNewValue, 0) == at_head(fieldType) && arg(maybeNewValue, 1) == at_head(value) && fieldType == ret(at_head(fieldType).Elem) && value == ret(at_head(value).Elem)
+//@   ensures [unsettable-pointer-is-an-error] tail(calls(CanSet) == 1 && !ret(CanSet)) ==> result == errValueNotSettable && calls(SetBool) + calls(SetString) + calls(fillDurationValue) + calls(processFieldPrimitiveWithJSONNumber) == 0
+//@   ensures [fillers-never-see-a-pointer-type] calls(SetBool) + calls(SetString) + calls(fillDurationValue) + calls(processFieldPrimitiveWithJSONNumber) >= 1 ==> kind != 22
+//@   ensures [bool-parsed] calls(strconv.ParseBool) >= 1 ==> kind == 1 && arg(strconv.ParseBool, 0) == envVal && (ret(strconv.ParseBool, 1) != nil ==> result != nil && calls(SetBool) == 0) && (ret(strconv.ParseBool, 1) == nil ==> result == nil && calls(local(value).SetBool) == 1 && arg(SetBool, 1) == ret(strconv.ParseBool, 0))
+//@   ensures [duration-only-into-a-duration-field] calls(fillDurationValue) >= 1 ==> ft == durationType && arg(fillDurationValue, 1) == local(value) && arg(fillDurationValue, 2) == envVal
+//@   ensures [string-verbatim] calls(SetString) >= 1 ==> kind == 24 && calls(local(value).SetString) == 1 && arg(SetString, 1) == envVal && result == nil
+//@   ensures [numbers-through-the-checked-path] calls(processFieldPrimitiveWithJSONNumber) >= 1 ==> calls(u.processFieldPrimitiveWithJSONNumber) == 1 && arg(processFieldPrimitiveWithJSONNumber, 1) == ft && arg(processFieldPrimitiveWithJSONNumber, 2) == local(value) && arg(processFieldPrimitiveWithJSONNumber, 3) == envVal && result == ret(processFieldPrimitiveWithJSONNumber)
+//@   ensures [every-kind-handled] ret(validateValueInOptions) == nil && result == nil ==> calls(SetBool) + calls(SetString) + calls(fillDurationValue) + calls(processFieldPrimitiveWithJSONNumber) == 1
 
 // ---------------- maps, string-encoded containers, defaults (C05) ----------------
 // fillMap: an unsettable field, a conversion error, or a converted map not assignable to the field is an error
